@@ -8998,7 +8998,13 @@ class SVG(Group):
 
         # Semiparse the nodes. All nodes are given in iterparse ordering with start-ns, start, and end.
         # Use values are inlined.
-        def semiparse(nodes):
+        def within(node, elem):
+            # True if elem is the node's element or one of its descendants.
+            if node[0] is elem:
+                return True
+            return node[1] is not None and any(within(c, elem) for c in node[1])
+
+        def semiparse(nodes, active=()):
             for elem, children in nodes:
                 if children is None:
                     yield None, "start-ns", elem
@@ -9007,7 +9013,7 @@ class SVG(Group):
                 if tag.startswith("{http://www.w3.org/2000/svg"):
                     tag = tag[28:]  # Removing namespace. http://www.w3.org/2000/svg:
                 yield tag, "start", elem
-                yield from semiparse(children)
+                yield from semiparse(children, active)
                 if SVG_TAG_USE == tag:
                     url = None
                     semiattr = elem.attrib
@@ -9016,10 +9022,13 @@ class SVG(Group):
                     if SVG_HREF in semiattr:
                         url = semiattr[SVG_HREF]
                     if url is not None:
-                        try:
-                            yield from semiparse([event_defs[url[1:]]])
-                        except KeyError:
-                            pass  # Failed to find link.
+                        target = event_defs.get(url[1:])  # None: failed to find link.
+                        if (
+                            target is not None
+                            and id(target) not in active
+                            and not within(target, elem)
+                        ):  # A use referencing itself, an ancestor or a cycle is an error: not expanded.
+                            yield from semiparse([target], active + (id(target),))
                 yield tag, "end", elem
 
         yield from semiparse(nodes)
